@@ -93,6 +93,30 @@ def handle (toks : List String) : String :=
       if k + 2 * (n : Int) < 0 then "panic"
       else showMat ((RPoly.mulMonomial { qs := qs, c := rows } k).c)
     | _, _, _ => badOp
+  | ["ringop", name, qs, arg, rows1, rows2] =>
+    match parseVec? qs, arg.toInt?, parseMat? rows1, parseMat? rows2 with
+    | some qs, some k, some r1, some r2 =>
+      let a : RPoly := { qs := qs, c := r1 }
+      let b : RPoly := { qs := qs, c := r2 }
+      let addK (sgn : Int) : RPoly :=
+        { qs := qs, c := (qs.zip r1).map fun ((q : Nat), (row : List Nat)) =>
+            row.map fun (x : Nat) => (((x : Int) + sgn * k) % (q : Int)).toNat }
+      let res : Option RPoly :=
+        match name with
+        | "MulScalar" | "MulScalarBigint" => some (RPoly.scaleInt a k)
+        | "MulScalarThenAdd" | "MulScalarBigintThenAdd" => some (b + RPoly.scaleInt a k)
+        | "MulScalarThenSub" => some (b - RPoly.scaleInt a k)
+        | "AddScalar" | "AddScalarBigint" => some (addK 1)
+        | "SubScalar" | "SubScalarBigint" => some (addK (-1))
+        | "EvalPolyScalar" => some (RPoly.scaleInt (RPoly.scaleInt a k + b) k + a)   -- Horner over [p, p2, p]
+        | "Add" => some (a + b)
+        | "Sub" => some (a - b)
+        | "Neg" => some (-a)
+        | _ => none
+      match res with
+      | some r => showMat r.c
+      | none => badOp
+    | _, _, _, _ => badOp
   | ["autidx", n, nth, gal] =>
     match n.toNat?, nth.toNat?, gal.toNat? with
     | some n, some nth, some gal => showVec (autIndex n nth gal)
